@@ -17,3 +17,51 @@ Theorem C06_limit_any_schedule : forall fixed max o roots ls st,
   run fixed max o ls (init roots) = Some st -> sent st <= max.
 Proof. exact sent_within_limit. Qed.
 Print Assumptions C06_limit_any_schedule.
+
+(* Mechanism 3 of the property — "merge is by insertion point and id, not by position" — for the model of
+   mergeExecutionResults (Model/MergeRes.v, tied to execution_result.go by the correspondence check of every run).
+   [req] is equality of decoded JSON trees as Go values (maps compared by key, not by position in the association list). *)
+From V Require Import Base.Util Gql.Ast Model.MergeRes Proofs.MergeOrder.
+From Coq Require Import Permutation.
+
+(* two lookup results that write different response keys into the objects they share, and of which neither descends
+   through a key the other writes, can be merged in either order — for every destination tree and all insertion points *)
+Theorem C06_independent_lookup_results_commute : forall s1 s2, wf_items s1 -> wf_items s2 -> forall d ip1 ip2 d1 d12,
+  indep s1 ip1 s2 ip2 -> M s1 ip1 d = Ok d1 -> M s2 ip2 d1 = Ok d12 ->
+  exists d2 d21, M s2 ip2 d = Ok d2 /\ M s1 ip1 d2 = Ok d21 /\ req d12 d21.
+Proof. exact cc_commute. Qed.
+Print Assumptions C06_independent_lookup_results_commute.
+
+(* merging one result into equal values gives equal values (so a swap early in the list is not undone later) *)
+Theorem C06_merge_respects_value_equality : forall s d d', req d d' -> forall ip e, M s ip d = Ok e ->
+  exists e', M s ip d' = Ok e' /\ req e e'.
+Proof. exact M_congr. Qed.
+Print Assumptions C06_merge_respects_value_equality.
+
+(* the whole merge, PARTIAL in one respect: plans with one root step (the first result is the root step's, every other
+   result is a lookup's; several root steps would need the same argument for mergeMaps).  For ANY two arrival orders of
+   the lookup results in which every inverted pair is independent — in particular any two causal orders of one execution
+   (C06_results_causally_ordered) whose causally unrelated results are independent, which the check evaluates on every
+   observed execution — both merges succeed together and yield the same Go value. *)
+Theorem C06_merge_order_irrelevant_partial : forall r0 rs rs' d, Forall is_child rs -> Permutation rs rs' ->
+  (forall x y, before x y rs -> before y x rs' -> indep_res x y) ->
+  merge_results (r0 :: rs) = Ok d -> exists d', merge_results (r0 :: rs') = Ok d' /\ req d d'.
+Proof. exact merge_results_order_irrelevant. Qed.
+Print Assumptions C06_merge_order_irrelevant_partial.
+(* non-vacuity and necessity: two services extending the same objects commute (and the two association lists differ);
+   a lookup result and the result that brings the objects it extends do not *)
+Example C06_orders_example :
+  exists d1 d2, merge_results [ex_base; ex_b; ex_c] = Ok d1 /\ merge_results [ex_base; ex_c; ex_b] = Ok d2 /\ d1 <> d2 /\ req d1 d2.
+Proof. exact ex_orders. Qed.
+Example C06_dependent_results_do_not_commute :
+  exists d1 d2, merge_results [ex_base; ex_b2; ex_d] = Ok d1 /\ merge_results [ex_base; ex_d; ex_b2] = Ok d2 /\ ~ req d1 d2.
+Proof. exact ex_dependent_results_do_not_commute. Qed.
+
+(* The independence hypothesis is NOT met by every plan of the real planner (known finding KF-key-clash-across-types,
+   reproduced against the real gateway: the answer depends on which of two services answers last): two lookups with the
+   same insertion point that write the same response key are not independent, and their merges do not commute. *)
+Theorem C06_key_clash_across_types_refuted :
+  ~ indep_res ex_nick ex_age /\
+  exists d1 d2, merge_results [ex_animals; ex_nick; ex_age] = Ok d1 /\ merge_results [ex_animals; ex_age; ex_nick] = Ok d2 /\ ~ req d1 d2.
+Proof. split; [exact ex_key_clash_not_independent|exact ex_key_clash_order_dependent]. Qed.
+Print Assumptions C06_key_clash_across_types_refuted.
